@@ -19,7 +19,8 @@ class Contract:
                  assumptions=(), loop_modifies=None, check_encode=False, replay=None, generator=False,
                  ghost_modifies=(), pure=False, notes="", bodyless=False, lemmas=None, cls=None,
                  timeout_ms=None, frame_check=True, inline=False, forall_ghosts=(), watch_extra=None,
-                 model_to_inputs=None, native=None, cuts=None, defaults=None, init_fields=None, volatile=(), local_raises=()):
+                 model_to_inputs=None, native=None, cuts=None, defaults=None, init_fields=None, volatile=(), local_raises=(),
+                 lazy_opt=False):
         self.id = id
         self.file = file
         self.qualname = qualname
@@ -39,6 +40,7 @@ class Contract:
         self.stub_methods = stub_methods or {}
         self.defs = defs or {}
         self.ufuncs = ufuncs or {}
+        self.lazy_opt = lazy_opt
         self.axioms = list(axioms)
         self.canaries = canaries or {}
         self.on_yield = on_yield
@@ -96,12 +98,12 @@ class Contract:
             if isinstance(a, ast.Starred):
                 args.extend(ev.iter_concrete(ev.expr(a.value), a))
             else:
-                args.append(ev.expr(a))
+                args.append(ev.expr_keep(a))
         if len(args) != len(ps):
             raise Unsupported("spec function %s: arity" % name)
         sub = ev.sub()
         sub.bound.update(dict(zip(ps, args)))
-        return sub.expr(body)
+        return sub.expr_keep(body)
 
     def apply_ufunc(self, ev, node):
         name = node.func.id
@@ -188,7 +190,7 @@ def _old(ev, node):
         sub = ev.sub(frame=Frame(fr.contract, fr.relpath, fr.clsname, dict(fr.old_env), fn=fr.fn))
         sub.bound = dict(ev.bound)
     try:
-        v = sub.expr(node.args[0])
+        v = sub.expr_keep(node.args[0])
         old_heap = st.heap
     finally:
         st.heap, st.ghost = saved_heap, saved_ghost
@@ -214,7 +216,7 @@ def _materialise_old(st, old_heap, v, depth):
 
 def _ite(ev, node):
     c = ev.truth(ev.expr(node.args[0]))
-    return ev.ite(c, ev.expr(node.args[1]), ev.expr(node.args[2]))
+    return ev.ite(c, ev.expr_keep(node.args[1]), ev.expr_keep(node.args[2]))
 
 
 def _inre(ev, node):
@@ -242,7 +244,10 @@ def _sum_upto(ev, node):
 
 
 def _is_none(ev, node):
-    return VBool(isinstance(ev.expr(node.args[0]), VNone))
+    v = ev.expr_keep(node.args[0])
+    if isinstance(v, VOpt):
+        return VBool(v.n)
+    return VBool(isinstance(v, VNone))
 
 
 def _raised(ev, node):
